@@ -6,4 +6,5 @@ CONSTANTS
   Icpts <- MCIcpts
   Variant = "required"
   Kinds = {}
+  MaxEdits = 0
 CHECK_DEADLOCK FALSE
